@@ -55,6 +55,8 @@ type World struct {
 	li         *lockInfo
 	eff        *effectInfo
 	fl         *flowInfo
+	ai         *absint
+	storeSets  map[*ssa.Function]map[*types.Var]bool
 	NPkgs      int
 	NFuncs     int
 }
